@@ -18,6 +18,11 @@ import random
 MAX_REPORT = 5
 NAMES = ["a", "b", "c", "d"]
 QUOTED = {"my col": "`my col`"}
+TNAMES = ["I", "C", "Q", "log", "center"]  # data columns named like built-in transforms, used as plain lookup factors
+# whole Python-expression factors: differentiating by the factor expression removes that factor. Their inner
+# columns (u, v) are never used as differentiation variables themselves (without sympy a variable "occurs" in a
+# term only as a factor of its own).
+PYFACTORS = ["log(u)", "I(v * 2)"]
 LITS = ["2", "3", "0.5", "1.5"]  # numeric scaling literals (`3:a`); they are factors that no variable ever removes
 
 
@@ -173,6 +178,11 @@ def cols(formula, df, output={output!r}):
     vals = mm.toarray() if hasattr(mm, 'toarray') else np.asarray(mm, dtype=float)
     return mm.model_spec, vals
 spec0, base = cols(f, data)
+def shift(df, w, step):
+    # move the evaluated factor `w` by `step`: a column directly, a Python factor through its inner column
+    if w == 'I(v * 2)': df['v'] = df['v'] + step / 2
+    elif w == 'log(u)': df['u'] = np.exp(np.log(df['u']) + step)
+    else: df[w] = df[w] + step
 # iterated finite difference of every ORIGINAL column
 fd = np.zeros_like(base)
 import itertools
@@ -180,7 +190,7 @@ for r in range(len(wrt) + 1):
     for U in itertools.combinations(range(len(wrt)), r):
         shifted = data.copy()
         for i in U:
-            shifted[wrt[i]] = shifted[wrt[i]] + h[i]
+            shift(shifted, wrt[i], h[i])
         fd += (-1) ** (len(wrt) - r) * cols(f, shifted)[1]
 fd = fd / np.prod(h) if wrt else base
 dspec, dvals = cols(d, data)
@@ -194,8 +204,20 @@ for i, (t0, t1) in enumerate(zip(f, d)):
     assert len(c1) == 1, ('derivative term owns no single column', str(t0), str(t1), c1, dspec.column_names)
     want = fd[:, list(spec0.column_names).index(c0[0])]
     got = dvals[:, list(dspec.column_names).index(c1[0])]
-    assert np.array_equal(got, want), (str(t0), str(t1), got, want)
+    assert np.allclose(got, want, rtol=0, atol={atol!r}), (str(t0), str(t1), got, want)
 """
+
+
+def shift_frame(df, w, step):
+    """Move the evaluated factor `w` by `step` (exactly for columns and I(v * 2); log(u) through exp, hence a tolerance)."""
+    import numpy as np
+
+    if w == "I(v * 2)":
+        df["v"] = df["v"] + step / 2
+    elif w == "log(u)":
+        df["u"] = np.exp(np.log(df["u"]) + step)
+    else:
+        df[w] = df[w] + step
 
 
 def check_numeric(b, counts, terms, wrt, data, h, output):
@@ -206,11 +228,13 @@ def check_numeric(b, counts, terms, wrt, data, h, output):
     text = formula_text(terms)
     f = Formula(text)
     df = pd.DataFrame(data)
+    # exact unless log(u) takes part (its shift goes through exp/log, and its column is irrational)
+    atol = 1e-9 if "log(u)" in text else 0.0
     nonzero = [t for t in terms if d_spec(t, wrt) != "0"]
     b.case(("num", text, wrt, tuple(h), output, tuple(sorted((k, tuple(v)) for k, v in data.items()))), bool(nonzero) and bool(wrt),
            sample={"formula": text, "wrt": list(wrt), "h": list(h), "output": output, "rows": len(df)})
     w = {"formula": text, "wrt": list(wrt), "h": list(h), "output": output, "data": data,
-         "code": REPRO_NUM.format(data=data, text=text, wrt=tuple(wrt), h=tuple(h), output=output)}
+         "code": REPRO_NUM.format(data=data, text=text, wrt=tuple(wrt), h=tuple(h), output=output, atol=atol)}
 
     def cols(formula, frame):
         mm = formula.get_model_matrix(frame, output=output)
@@ -223,7 +247,7 @@ def check_numeric(b, counts, terms, wrt, data, h, output):
         for U in itertools.combinations(range(len(wrt)), r):
             shifted = df.copy()
             for i in U:
-                shifted[wrt[i]] = shifted[wrt[i]] + h[i]
+                shift_frame(shifted, wrt[i], h[i])
             fd += (-1) ** (len(wrt) - r) * cols(f, shifted)[1]
     fd = fd / np.prod(h) if wrt else base
     try:
@@ -251,7 +275,7 @@ def check_numeric(b, counts, terms, wrt, data, h, output):
             continue
         want = fd[:, names0.index(c0[0])]
         got = dvals[:, names1.index(c1[0])]
-        if not np.array_equal(got, want):
+        if not np.allclose(got, want, rtol=0, atol=atol):
             _fail(b, counts, "C20.numeric.finite-difference", "one-term" if one else "product-term", w,
                   f"term `{t0}` -> `{t1}`: column {got.tolist()} but finite difference {want.tolist()}")
 
@@ -269,12 +293,19 @@ def run_bounded(ctx):
     counts = {}
     # 16 products incl. the intercept + 5 numerically scaled products (literal first, in the middle, last)
     universe = all_terms(NAMES) + [("3", "a"), ("b", "0.5", "c"), ("a", "b", "2"), ("1.5", "d", "c", "a"), ("2", "a", "b", "c", "d")]
+    # + columns named like built-in transforms as lookup factors, and whole Python-expression factors
+    universe_x = universe + [("I", "a"), ("C",), ("b", "log", "Q"), ("a", "log(u)"), ("I(v * 2)", "b", "c")]
     wrts = [()] + [w for k in (1, 2) for w in itertools.product(NAMES + ["e"], repeat=k)]
+    wrts_x = [("I",), ("C",), ("log",), ("log(u)",), ("I(v * 2)",), ("I", "a"), ("a", "I"), ("Q", "b"), ("log(u)", "a"), ("a", "log(u)"),
+              ("I(v * 2)", "c"), ("I", "I"), ("log(u)", "log(u)"), ("center",)]
     kmax = 4 if ctx.thorough else 2
     with ctx.bounded(
         "differentiate-factor-sets",
         rule="every formula made of <= 2 (quick) / 4 (thorough) distinct terms out of the 16 products over {a,b,c,d} (incl. the "
-             "intercept) and 5 numerically scaled products (3:a, b:0.5:c, a:b:2, 1.5:d:c:a, 2:a:b:c:d) x every tuple of <= 2 variables over {a,b,c,d,e}; non-trivial = some variable occurs in some term",
+             "intercept) and 5 numerically scaled products (3:a, b:0.5:c, a:b:2, 1.5:d:c:a, 2:a:b:c:d) x every tuple of <= 2 variables over {a,b,c,d,e}; plus every such formula that also uses one of 5 extra terms "
+             "(lookup columns named like built-in transforms: I:a, C, b:log:Q; whole Python-expression factors: a:log(u), "
+             "I(v * 2):b:c) x the single-variable tuples (1-term formulas: all tuples) and 14 tuples naming I/C/Q/log/center or a factor expression (`log(u)`); "
+             "non-trivial = some variable occurs in some term",
         exhaustive=True,
         bound=f"terms <= {kmax} of 21, wrt length <= 2 over 5 names",
     ) as b:
@@ -284,9 +315,16 @@ def run_bounded(ctx):
                     continue  # not a formula
                 for wrt in wrts:
                     check_symbolic(b, counts, list(terms), wrt, None)
+        # the extended vocabulary: every formula that uses at least one of the 5 extra terms, x all tuples
+        for k in range(1, min(kmax, 3) + 1):
+            for terms in itertools.combinations(universe_x, k):
+                if scale_conflict(terms) or not any(t in universe_x[len(universe):] for t in terms):
+                    continue
+                for wrt in wrts + wrts_x if k == 1 else wrts_x + [w for w in wrts if len(w) == 1]:
+                    check_symbolic(b, counts, list(terms), wrt, None)
     with ctx.bounded(
         "differentiate-factor-sets-random",
-        rule="seeded random formulas with <= 8 terms over {a,b,c,d,`my col`} (unsorted factor order, 25% of the terms carry a "
+        rule="seeded random formulas with <= 8 terms over {a,b,c,d,`my col`, I,C,Q,log,center as columns, log(u), I(v * 2)} (unsorted factor order, 25% of the terms carry a "
              "scaling literal 2/3/0.5/1.5 at a random position, orderings default/none/sort/"
              "degree) x tuples of <= 4 variables (repeats allowed, absent name e); plus 3-term formulas x 4 sampled tuples; "
              "non-trivial = some variable occurs in some term",
@@ -299,7 +337,7 @@ def run_bounded(ctx):
                     continue
                 for wrt in rng.sample(wrts, 4):
                     check_symbolic(b, counts, list(terms), wrt, None)
-        pool = NAMES + ["my col"]
+        pool = NAMES + ["my col"] + TNAMES + PYFACTORS
         for _ in range(4000 if ctx.thorough else 600):
             n = rng.randint(1, 8)
             terms = set()
@@ -317,7 +355,8 @@ def run_bounded(ctx):
                 check_structured(b, counts, lhs, terms[len(terms) // 2:], wrt)
     with ctx.bounded(
         "differentiate-finite-differences",
-        rule="multilinear formulas (<= 5 product terms over numeric columns a..d, 30% with a scaling literal, with/without intercept) x tuples of <= 3 "
+        rule="multilinear formulas (<= 5 product terms over numeric columns a..d, 30% with a scaling literal, a third using columns "
+             "named I/C/Q/log/center and a third using the Python factors log(u) / I(v * 2), with/without intercept) x tuples of <= 3 "
              "distinct-or-repeated variables x integer/dyadic data (4-6 rows) x steps h in {1, 2, 0.5}; exact comparison of each "
              "non-zero derivative term's column with the iterated finite difference of the original term's column; non-trivial = "
              "at least one non-zero derivative term",
@@ -343,6 +382,16 @@ def run_bounded(ctx):
             ([(), ("a", "2", "b"), ("1.5", "c")], ("a", "b")),
             ([("3", "a"), ("b",)], ("b",)),
             ([("2", "a", "b", "c")], ("c", "a")),
+            # data columns named like built-in transforms, as plain lookup factors
+            ([("I", "a"), ("a", "b")], ("I",)),
+            ([(), ("I",), ("C", "a"), ("log", "Q", "b")], ("Q", "log")),
+            ([("center", "a"), ("3", "I", "center")], ("center",)),
+            ([("I", "a")], ("a", "I")),
+            # differentiation by a whole Python-expression factor
+            ([("a", "log(u)"), ("b",)], ("log(u)",)),
+            ([(), ("I(v * 2)", "b", "c"), ("a", "I(v * 2)")], ("I(v * 2)", "b")),
+            ([("2", "a", "log(u)"), ("log(u)",)], ("log(u)", "a")),
+            ([("a", "I(v * 2)")], ("I(v * 2)", "I(v * 2)")),
         ]
         cases = list(fixed)
         for _ in range(900 if ctx.thorough else 130):
@@ -351,18 +400,31 @@ def run_bounded(ctx):
             terms = [tuple(sorted(t, key=lambda _x: rng.random())) for t in terms]
             terms = [t[:j] + (rng.choice(LITS),) + t[j:] if t and rng.random() < 0.3 else t
                      for t in terms for j in [rng.randrange(len(t) + 1)]]
+            # a third of the cases swap some names for the extended vocabulary: either transform-named columns or
+            # Python-expression factors (never both: a column called `I`/`log` would shadow the function of that name)
+            fam = rng.choice(["plain", "transform-names", "python-factors"])
+            if fam != "plain":
+                ren = dict(zip(rng.sample(NAMES, 2), rng.sample(TNAMES, 2) if fam == "transform-names" else PYFACTORS))
+                terms = [tuple(ren.get(x, x) for x in t) for t in terms]
             present = sorted(set().union(*map(set, map(variables_of, terms)))) or ["a"]
             wrt = tuple(rng.choice(present if rng.random() < 0.85 else NAMES) for _ in range(rng.randint(1, 3)))
             cases.append((terms, wrt))
         for i, (terms, wrt) in enumerate(cases):
             rows = rng.randint(4, 6)
-            data = {n: [float(rng.choice([-3, -2, -1, 0, 1, 2, 3, 4, 0.5, 1.5])) for _ in range(rows)] for n in NAMES}
+            used = set().union(*map(set, map(variables_of, terms))) if terms else set()
+            data = {n: [float(rng.choice([-3, -2, -1, 0, 1, 2, 3, 4, 0.5, 1.5])) for _ in range(rows)]
+                    for n in NAMES + [t for t in TNAMES if t in used] + (["v"] if "I(v * 2)" in used else [])}
+            if "log(u)" in used:
+                data["u"] = [float(rng.choice([0.5, 1, 2, 4, 8])) for _ in range(rows)]
             h = [rng.choice([1.0, 2.0, 0.5]) for _ in wrt]
             check_numeric(b, counts, terms, wrt, data, h, outputs[i % 3] if ctx.thorough or i % 4 == 0 else "pandas")
     ctx.assume(
         "C20-scope: factors are plain (optionally back-quoted) column names and use_sympy=False; a variable 'occurs' in a term "
         "iff it is one of its factors (function-call factors such as log(a) are outside 'products of distinct factors')",
-        "A-float-exact: data, steps and all products are exactly representable, so finite differences are compared with ==",
+        "A-float-exact: data, steps and all products are exactly representable, so finite differences are compared exactly; only formulas "
+        "containing log(u) are compared at 1e-9 (the factor is shifted through exp(log(u) + h))",
+        "C20-wrt-factor: differentiating by a whole factor expression (`log(u)`) removes that factor; the finite difference shifts the "
+        "evaluated factor; the inner columns u, v are never used as differentiation variables (without sympy that case is not judged)",
         "C20-columns: a derivative term's column is located through model_spec.structure (term -> columns)",
         "C20-scale: a numeric literal factor (`3:a`) scales the term; it is a factor no variable removes, so the derivative keeps it "
         "(term oracle) and the column is scale x product of the remaining factors (finite-difference oracle); a derivative that is a "
